@@ -22,7 +22,7 @@ def check_total_power(ctx, ck):
     # an accumulator loop and sum(generator) have the same normal form)
     from ..symx import SymExec, canon_k
     f = m.func(COMPUTE)
-    paths = [p_ for p_ in SymExec(ctx, f, bind_loops=True, private_only=True, props=True, max_paths=2000).run() if p_.end != 'raise']
+    paths = [p_ for p_ in SymExec(ctx, f, bind_loops=True, private_only=True, props=True, effects=True, max_paths=2000).run() if p_.end != 'raise']
     ck.floor('paths through compute', len(paths), 1)
     vals = set()
     after = True
@@ -84,5 +84,9 @@ def run(ctx, ck):
     ck.rule('R-LIT.vertical-exact', 'grounded-and-not-vertical is decided by exact zero tests of the horizontal direction components')
     from ._sym import check_vertical_exact
     ck.floor('tests in Pulse.is_non_vertical_grounded', check_vertical_exact(ctx, ck), 1)
+    # the matrix (pulse end points) and the far field (pulse segments) describe the same junction pulse
+    ck.rule('R-SIB.junction-geometry', 'outer half of a junction pulse on the neighbour segment touching the junction, its end point one step along that segment')
+    from ._creation import check_neighbour_segment
+    check_neighbour_segment(ctx, ck, rule='R-SIB.junction-geometry')
     ck.undecided += ['the 1.5 % balance between source, dissipated and radiated power (numeric integration)',
                      'Fresnel reflection branch over real ground', 'dissipation in loads']
